@@ -19,6 +19,14 @@ CHECKS = {
          'Every combination of nesting depth 1..3 (thorough 1..5), owning level, per-level in-place/returned call path, read/write access and 11 invocation routes (direct, containers, builtin callbacks, try, call, spawn, fn.spawn, vm.Get+vm.Call from Go) is rendered to source and run on the real pipeline and on the reference interpreter; the escaped closure is invoked twice and a sibling closure over the same binding is read afterwards.',
          'Trusted: the reference interpreter. One known finding (capture across a returned frame) is matched by a generator-side structural tag; any other disagreement is a violation.',
          'E1 progen+refsem', '4 C02'),
+ 'C06': ('model_checking', 'stateless model checking of the implementation: controlled scheduler over the hooked goroutines, every cancellation instant x every schedule up to a deviation bound, promptness counted in VM instructions',
+         'Every combination of child prefix (go/spawn/fn.spawn, looping or blocked, nested to depth 2-3) x main shape (5 loop forms, recursion, 5 blocked operations, 7 callback-carrying builtins) x cancellation instant (every VM instruction of the main task is a scheduling point; the canceller gate opens at point k or when the system is idle) is run under internal/dsched; every schedule with at most 1 (thorough 2) deviations of canceller, watcher goroutines, children and main is enumerated. Oracle: Eval returns the context error, at most 3 instructions are dispatched by a VM whose halt flag is set, no blocked operation survives the cancel, and after Eval returned every started task ends within the drain horizon.',
+         'Trusted: the verif hooks cover every blocking operation and goroutine start of the packages involved; a granted operation that was enabled only by a cancelled context and does not return within 10 s (twice) is reported as blocked forever. Real-time latency is not measured.',
+         'E3 dsched', '4 C06'),
+ 'C07': ('model_checking', 'explicit enumeration of API histories on one VM, each explored under the controlled scheduler over all placements of stale context cancellations and watcher stores up to a deviation bound; differential oracle against a fresh VM',
+         'Every history of 1..3 invocations (thorough: larger alphabet, length 4) over RunCode/Call x outcome kinds (normal, runtime error at depth 0/2, recovered Go panic, frame overflow, cancelled mid-run) x one stale cancel of an earlier invocation context; the canceller, the watcher goroutines of all runs and the main task are interleaved at VM-instruction granularity within the deviation bound. Each invocation must return the (value, error class, stack depth) it returns on a fresh VM.',
+         'Trusted: the expected results are computed by the same harness on fresh VMs. One known finding (Call of a function whose code was replaced by a later RunCode).',
+         'E4 histbfs on E3 dsched', '4 C07'),
  'C08': ('exploration', 'bounded-exhaustive enumeration of Go types (reflect-built, depth 2/3) x boundary values x 4 boundary routes with a contents + typed round-trip oracle',
          'Every Go type from 38 leaf types under 6 constructors to depth 2 (thorough 3), with zero/nil/min/max/ordinary values, crosses the boundary by 4 routes (global, field read, field write, method argument/result) in crash-isolated workers; contents must equal the normalised original, the typed round trip must be DeepEqual, or a clean error; never a panic.',
          'Trusted: the normalisation function N and the relaxations listed in DESIGN (nil vs empty, integer width under any). Types beyond depth 3, chan/func/complex are out of scope.',
